@@ -34,6 +34,7 @@ def run(tier):
         chk.clause('C02.kern.index', 'abstract interpretation of the supernodal update kernels in a polynomial index domain: every access to the supernode block is the entry the algebra needs')
         for _p in 'ds':
             r12_supernodal.run(chk, 'C02.kern.index', prog, _p, cfgname)
+            r12_supernodal.run_snode(chk, 'C02.kern.index', prog, _p, cfgname)
         chk.clause('C02.options', 'option-controlled choices of ?gstrf / ?gsitrf (relaxation routine, use of remembered pivots)')
         for _p in _drv.PRECS:
             misc.option_choice_rules(chk, 'C02.options', prog, _p, cfgname)
